@@ -40,6 +40,23 @@ def firstDiff (a b : List String) : Option (Nat × String × String) :=
     | x :: xs, y :: ys => if x = y then go (k + 1) xs ys else some (k, x, y)
   go 0 a b
 
+/-- event kinds (first token of the text form) each property's monitor depends on -/
+def projKinds : List (String × List String) :=
+  [("C01", ["pb", "pe", "cb", "ce", "fi", "wo", "wp", "cd", "db"]),
+   ("C02", ["pe", "ce", "cd", "vd", "db", "de", "in"]),
+   ("C03", ["pb", "pe", "cb", "ce", "cd", "db"]),
+   ("C16", ["cb", "ce", "fi"]),
+   ("C20", ["pb", "pe", "cb", "ce", "fi", "cd", "in"]),
+   ("FUN", ["pb", "pe", "cb", "ce"]),
+   ("GRP", ["pb", "pe", "cb", "ce", "cd", "in", "rm", "an"])]
+
+def firstTok (l : String) : String := (l.splitOn " ").headD ""
+
+def projEq (model impl : List String) : String :=
+  " ".intercalate (projKinds.map (fun (p, ks) =>
+    let f := fun (l : String) => ks.contains (firstTok l)
+    s!"eq{p}={if model.filter f = impl.filter f then 1 else 0}"))
+
 def words (line : String) : List String :=
   (line.trimAscii.toString.splitOn " ").filter (· ≠ "")
 
@@ -61,7 +78,8 @@ def finish (modeArg : String) (a : CaseAcc) : IO Unit := do
         | some evs => holdsText c nch evs.reverse
       match firstDiff model impl with
       | none => IO.println s!"R {a.id} eq=1 len={model.length} {hs}"
-      | some (k, m, i) => IO.println s!"R {a.id} eq=0 div={k} model=[{m}] impl=[{i}] {hs}"
+      | some (k, m, i) =>
+        IO.println s!"R {a.id} eq=0 {projEq model impl} {hs} div={k} model=[{m}] impl=[{i}]"
 
 partial def loop (modeArg : String) (h : IO.FS.Stream) (a : CaseAcc) : IO Unit := do
   let line ← h.getLine
